@@ -64,18 +64,38 @@ pub mod watchdog {
         (T0.get_or_init(Instant::now).elapsed().as_millis() as u64).max(1)
     }
 
+    static START_CPU_MS: AtomicU64 = AtomicU64::new(0);
+
+    /// CPU time (user + system) this process has used, in milliseconds (from /proc/self/stat; 0 if unreadable).
+    pub fn cpu_ms() -> u64 {
+        let Ok(stat) = std::fs::read_to_string("/proc/self/stat") else { return 0 };
+        // fields after the command name (which may contain spaces, but ends with ')')
+        let Some(rest) = stat.rsplit(')').next() else { return 0 };
+        let f: Vec<&str> = rest.split_whitespace().collect();
+        // rest starts at field 3 (state); utime is field 14, stime field 15
+        let (Some(u), Some(s)) = (f.get(11).and_then(|x| x.parse::<u64>().ok()), f.get(12).and_then(|x| x.parse::<u64>().ok())) else { return 0 };
+        (u + s) * 10       // clock ticks of 1/100 s
+    }
+
+    /// A history is "hung" when it has used more CPU time than `limit_ms` (a loop that never ends; independent of
+    /// how busy the machine is) or when it has made no end for 8 x `limit_ms` of wall time (blocked for good).
     pub fn start(limit_ms: u64) {
         let _ = now_ms();
         std::thread::spawn(move || loop {
             std::thread::sleep(Duration::from_millis(100));
             let st = START_MS.load(Ordering::SeqCst);
-            if st != 0 && now_ms().saturating_sub(st) > limit_ms {
-                std::process::exit(4);
+            if st != 0 {
+                let wall = now_ms().saturating_sub(st);
+                let cpu = cpu_ms().saturating_sub(START_CPU_MS.load(Ordering::SeqCst));
+                if cpu > limit_ms || wall > 8 * limit_ms {
+                    std::process::exit(4);
+                }
             }
         });
     }
 
     pub fn begin() {
+        START_CPU_MS.store(cpu_ms(), Ordering::SeqCst);
         START_MS.store(now_ms(), Ordering::SeqCst);
     }
 
